@@ -252,7 +252,7 @@ def d3_validation(ctx):
     ctx.check(rule, 'covobs.py:Covobs.__init__#rejects[separator in name]', ok, "names containing '|' are rejected", "no raise guarded by `'|' in name`", cov.loc(fi))
     fc = cov.func('Covobs._set_cov')
     rs = [(s, ' && '.join(('' if pol else 'NOT ') + unparse(t) for t, pol in guards_of(cov, s, stop=fc))) for s in statements(fc) if isinstance(s, ast.Raise)]
-    sym = [g for s, g in rs if '[i][j]' in g and '[j][i]' in g]
+    sym = [g for s, g in rs if ('[i][j]' in g and '[j][i]' in g) or ('[i, j]' in g and '[j, i]' in g)]
     ctx.check(rule, 'covobs.py:Covobs._set_cov#rejects[asymmetric]', bool(sym), 'asymmetric matrices are rejected', 'no symmetry test guards a raise', cov.loc(fc))
     # the symmetry loops cover every pair
     loops = [s for s in statements(fc) if isinstance(s, ast.For)]
